@@ -15,8 +15,12 @@ var ncpu = func() int {
 
 // childDeadline bounds a child re-execution (C31/C33). A child needs one or two seconds of CPU;
 // the deadline is two orders of magnitude above that, so that only a genuine hang trips it.
-const childDeadline = 300 * time.Second
+const childDeadline = 150 * time.Second
 
 type errChildHung struct{ dump string }
 
 func (e errChildHung) Error() string { return "child process did not finish" }
+
+// hangSeen remembers (per worker process) the child configurations that already hung,
+// so that a hang is reported once instead of being waited for in every case.
+var hangSeen = map[string]bool{}
